@@ -167,6 +167,7 @@ func (w *World) onEmit(p *OutPkt) {
 		// checks above still apply, per-flow continuity does not.
 		wf = w.anonFlow(key + "/post")
 		wf.fecInit = false
+		wf.grpData = nil // nor do groups continue: successive sessions may flush here
 		ep = nil
 	}
 	if f.HasFEC && !f.OOB {
